@@ -4,6 +4,10 @@
 (* (Comp = "pool") and on the real flaggedproducer (Comp = "flagged").                            *)
 (*   calls: open d | put d k v (v = 0: delete) | bput d (a large value under every key, so that   *)
 (*          one flush of d spans several write batches) | drop d | flush id                       *)
+(*   a put goes either directly to the store (via = "direct": Put/Delete or a one-shot batch) or  *)
+(*   through the long-lived batch object of its database (via = "lbatch": one batch per open      *)
+(*   store, reused with Reset, the usual Write+Reset pattern); whether that batch has been        *)
+(*   written before (lb) is part of the state.                                                    *)
 (* The model keeps, per database, what decides the durable operations of every later call:        *)
 (* open / queued for dropping / closed, existence on disk, durable contents, the volatile         *)
 (* overlay (pool), the dirty flag (flagged producer: set by a write and, in the protocol of       *)
@@ -19,7 +23,7 @@
 (* `cls` classifies the pre-state of a flush (used to stratify when a tier cannot run them all).  *)
 EXTENDS Integers, Sequences, FiniteSets, TLC, Json
 
-CONSTANTS Comp, DBSeq, KeySeq, PutKeys, Vals, Big, MaxFlush, MaxDrops, MaxBulk
+CONSTANTS Comp, DBSeq, KeySeq, PutKeys, Vals, Vias, Big, MaxFlush, MaxDrops, MaxBulk
 VARIABLES ops, st, nfl, ndr, nbulk, act
 svars == <<ops, st, nfl, ndr, nbulk, act>>
 View == <<st, nfl, ndr, nbulk>>
@@ -29,21 +33,22 @@ Keys == {KeySeq[i] : i \in 1..Len(KeySeq)}
 U == -1
 Empty == [k \in Keys |-> 0]
 NoOvl == [k \in Keys |-> U]
-Closed == [mode |-> "closed", ex |-> FALSE, cont |-> Empty, ovl |-> NoOvl, dirty |-> FALSE, last |-> Empty]
+Closed == [mode |-> "closed", ex |-> FALSE, cont |-> Empty, ovl |-> NoOvl, dirty |-> FALSE, last |-> Empty, lb |-> FALSE]
 
 Init == ops = <<>> /\ st = [d \in DBs |-> Closed] /\ nfl = 0 /\ ndr = 0 /\ nbulk = 0 /\ act = [op |-> "init"]
 
 Do(a) == ops' = Append(ops, a) /\ act' = a
 
 Open(d) == /\ st[d].mode = "closed"
-           /\ st' = [st EXCEPT ![d].mode = "open", ![d].ovl = NoOvl, ![d].dirty = FALSE,
+           /\ st' = [st EXCEPT ![d].mode = "open", ![d].ovl = NoOvl, ![d].dirty = FALSE, ![d].lb = FALSE,
                                ![d].ex = IF Comp = "flagged" THEN TRUE ELSE @]
            /\ Do([op |-> "open", db |-> d]) /\ UNCHANGED <<nfl, ndr, nbulk>>
 
-Put(d, k, v) == /\ st[d].mode = "open"
-                /\ st' = IF Comp = "pool" THEN [st EXCEPT ![d].ovl[k] = v]
-                         ELSE [st EXCEPT ![d].cont[k] = v, ![d].dirty = TRUE]
-                /\ Do([op |-> "put", db |-> d, k |-> k, v |-> v]) /\ UNCHANGED <<nfl, ndr, nbulk>>
+Put(d, k, v, via) ==
+  /\ st[d].mode = "open"
+  /\ st' = IF Comp = "pool" THEN [st EXCEPT ![d].ovl[k] = v, ![d].lb = @ \/ via = "lbatch"]
+           ELSE [st EXCEPT ![d].cont[k] = v, ![d].dirty = TRUE, ![d].lb = @ \/ via = "lbatch"]
+  /\ Do([op |-> "put", db |-> d, k |-> k, v |-> v, via |-> via]) /\ UNCHANGED <<nfl, ndr, nbulk>>
 
 BPut(d) == /\ st[d].mode = "open" /\ nbulk < MaxBulk /\ Comp = "pool"
            /\ st' = [st EXCEPT ![d].ovl = [k \in Keys |-> Big]]
@@ -70,7 +75,7 @@ Flush == /\ nfl < MaxFlush
          /\ nfl' = nfl + 1
          /\ Do([op |-> "flush", id |-> nfl + 1]) /\ UNCHANGED <<ndr, nbulk>>
 
-Next == \/ \E d \in DBs : Open(d) \/ Drop(d) \/ BPut(d) \/ \E k \in PutKeys, v \in Vals \cup {0} : Put(d, k, v)
+Next == \/ \E d \in DBs : Open(d) \/ Drop(d) \/ BPut(d) \/ \E k \in PutKeys, v \in Vals \cup {0}, via \in Vias : Put(d, k, v, via)
         \/ Flush
 Spec == Init /\ [][Next]_svars
 
@@ -82,7 +87,7 @@ Kind(d) == LET s == st[d] IN
   ELSE (IF s.ex THEN "E" ELSE "N")
        \o (IF \E k \in Keys : s.ovl[k] = Big THEN "b" ELSE IF \E k \in Keys : s.ovl[k] # U THEN "w" ELSE "e")
        \o (IF NonEmpty(s.cont) THEN "n" ELSE "z") \o (IF s.dirty THEN "d" ELSE "k")
-       \o (IF Comp = "flagged" /\ NonEmpty(s.last) THEN "l" ELSE "")
+       \o (IF Comp = "flagged" /\ NonEmpty(s.last) THEN "l" ELSE "") \o (IF s.lb THEN "L" ELSE "")
 RECURSIVE KindsFrom(_)
 KindsFrom(i) == IF i > Len(DBSeq) THEN "" ELSE Kind(DBSeq[i]) \o "." \o KindsFrom(i + 1)
 Cls == KindsFrom(1) \o "f" \o ToString(nfl)
